@@ -1,9 +1,12 @@
 """C10 — SBML export is valid and import(export(model)) is the same model.
 
 Per generated model: real write_sbml_model -> validate_sbml_model -> read_sbml_model (path and string
-variants), one and two trips; the written document is parsed with xml.etree to get the identifiers and
-the flux-bound parameter references, which are compared with the Gallina codec (IO/SbmlId.v) and
-_create_bound model; the Coq-defined monitor (IO/SbmlCheck.v) is evaluated on full observations.
+variants), one and two trips; the written document is parsed with xml.etree into the `doc` record of
+IO/SbmlDoc.v and compared with the Gallina write_doc of the model (step 5); read_doc of that document is
+compared with the model cobrapy read back (step 6); inside the proved side condition sbml_ok the read-back
+must be norm(model) (step 7); identifiers and flux-bound parameter references are compared with the Gallina
+codec (IO/SbmlId.v) and _create_bound model; the Coq-defined monitor (IO/SbmlCheck.v) is evaluated on full
+observations.
 Third-party files: every SBML file shipped under src/cobra/data and tests/data is read with cobrapy and
 with an independent xml.etree reader of the fbc-v2 subset; stoichiometry, bounds, objective compared."""
 import bz2
@@ -564,7 +567,8 @@ def shrink(spec, seed, want):
             x = copy.deepcopy(cur); del x["groups"][i]; cands.append(x)
         cands = [c for c in cands if all(r["stoich"] for r in c["rxns"]) and c["id"] is not None and c["mets"]]
         for c in cands:
-            ids = {"reactions": {r["id"] for r in c["rxns"]}, "metabolites": {m["id"] for m in c["mets"]}}
+            ids = {"reactions": {r["id"] for r in c["rxns"]}, "metabolites": {m["id"] for m in c["mets"]},
+                   "genes": {g["id"] for g in c["genes"]}}
             for g in c.get("groups", []):
                 g["members"] = [m for m in g["members"] if m[1] in ids[m[0]]]
         if not cands:
@@ -776,26 +780,33 @@ def run(args, rep, info, broken, rng):
             "lb_above_default_ub": sum(any(r["bounds"][0] > s["cfg"][1] for r in s["rxns"]) for s in specs),
             "nondefault_cfg": sum(s["cfg"] != [-1000.0, 1000.0] for s in specs),
             "validator_errors": sum(1 for o in outs if o["valid"]),
-            "ids_checked": sum(len(o["ids"]) for o in outs), "bounds_checked": sum(len(o["bounds"]) for o in outs)}
+            "ids_checked": sum(len(o["ids"]) for o in outs), "bounds_checked": sum(len(o["bounds"]) for o in outs),
+            "documents_compared_with_write_doc": sum(1 for o in outs if "doc" in o and o["skip"] is None),
+            "gene_in_group": sum(any(k == "genes" for g in s.get("groups", []) for k, _ in g["members"]) for s in specs),
+            "rules_with_nesting": sum(any("(" in r["rule"] for r in s["rxns"]) for s in specs)}
     evidence = {
         "level": "proof",
         "coverage": {
             "obligations": info["obligations"], "discharged": info["discharged"], "checker_cmd": info["checker_cmd"],
             "trusted_base": K.TRUSTED_COMMON + [
-                "libsbml (document model, XML writer/reader, validator, infix parser of gene associations) is exercised, not modelled",
+                "libsbml: its effect on the modelled fields (SId check of setId, unset attribute = '', 15 significant digits, "
+                "normal form of the association tree) is modelled in IO/SbmlDoc.v and compared on every case; XML text, "
+                "notes/annotations and the validator are exercised, not modelled",
                 "str(int)/int(str) and chr/ord of CPython (parameters of the codec theorems)",
                 "xml.etree reader of the fbc-v2 subset in harness/c10.py", "swiglpk read-back of the GLPK problem"],
             "axioms_reported_by_Print_Assumptions": info["axioms"],
             "evaluations": len(specs), "distinct_nontrivial": len({json.dumps(s, sort_keys=True) for s in specs if s["rxns"]}),
             "rule": "one case = one generated model written with write_sbml_model, validated, read back via path and string, "
-                    "twice; ids and bound parameters of the written document compared with the Gallina codec",
+                    "twice; the written document (parsed with xml.etree) compared with write_doc, the model read back with "
+                    "read_doc of that document and, inside sbml_ok, with norm(model); ids and bound parameters compared with "
+                    "the Gallina codec",
             "samples": [specs[i] for i in ([n_corpus, len(specs) - 1] if len(specs) > n_corpus else [])][:2],
             "traces_validated_against_impl": len(specs) - n_fail, "disagreements_checked": n_fail,
             "exhaustive": False, "input_distribution": dist, "third_party_files": tp_results,
             "broken_obligations": broken,
         },
         "assumptions": ["libsbml and XML text are trusted", "f_replace=F_REPLACE (default) only; documents written without "
-                        "id replacement are not generated", "gene rules compared as truth tables"],
+                        "id replacement are not generated", "gene rules compared as truth tables (monitor) and as trees (write_doc / read_doc correspondence)"],
     }
     return rep.finish(evidence)
 
